@@ -52,6 +52,18 @@ def _returns_permfail(stmts) -> bool:
     return True
 
 
+def _unguarded_call(stmts, name: str) -> bool:
+    """is `name(…)` called in these statements outside of any nested `try`?"""
+    def walk(node) -> bool:
+        if isinstance(node, ast.Try):
+            # calls in the guarded body are fine; handlers / else / finally are not guarded by it
+            return any(walk(x) for part in (node.handlers, node.orelse, node.finalbody) for x in part)
+        if isinstance(node, ast.Call) and _call_name(node) == name:
+            return True
+        return any(walk(c) for c in ast.iter_child_nodes(node))
+    return any(walk(s) for s in stmts)
+
+
 def extract() -> dict:
     info: dict = {"files": {k: str(p) for k, p in MODULES.items()}}
     ok = True
@@ -109,7 +121,7 @@ def extract() -> dict:
             f = fns[name]
             tries = [n for n in ast.walk(f) if isinstance(n, ast.Try)]
             d = {"scan_after_eval": False, "catches_celevalerror": False, "catch_all": False,
-                 "handlers_permfail": False}
+                 "handlers_permfail": False, "handlers_cannot_raise": False}
             if len(tries) == 1:
                 t = tries[0]
                 ev = [n.lineno for s in t.body for n in ast.walk(s)
@@ -121,6 +133,9 @@ def extract() -> dict:
                 d["catches_celevalerror"] = any(c.endswith("CELEvalError") for c in caught)
                 d["catch_all"] = any(c in ("*", "Exception", "BaseException") for c in caught)
                 d["handlers_permfail"] = bool(t.handlers) and all(_returns_permfail(h.body) for h in t.handlers)
+                # F10: celpy's tree_dump can raise; an except-arm must not call it unguarded (an exception raised
+                # inside one arm is not caught by its siblings)
+                d["handlers_cannot_raise"] = not any(_unguarded_call(h.body, "tree_dump") for h in t.handlers)
             evaluators[name] = d
     except Exception as e:
         ok = False
@@ -131,7 +146,7 @@ def extract() -> dict:
 
     # a dedicated CELEvalError handler is recorded but not required: the catch-all already answers PermFail
     ev_ok = bool(evaluators) and all(d["scan_after_eval"] and d["catch_all"] and d["handlers_permfail"]
-                                     for d in evaluators.values())
+                                     and d["handlers_cannot_raise"] for d in evaluators.values())
     lines = [
         "-- REGENERATED by harness/extractors/EvalSites.py from src/koreo/cel/evaluation.py and the three",
         "-- reconcile modules on every run; do not edit.",
